@@ -166,9 +166,12 @@ def run(chk):
     progs = ["m.map(k, k)", "m.filter(k, true)", "m.map(k, m[k])", "l.map(x, x * 2)", "m", "[m, m]", "string(m)" if False else "size(m)",
              "m.all(k, size(k) > 0)", "l.map(x, m.map(k, k))", "m.map(k, k).size() + l.reduce(a, b, a + b, 0)",
              "{'z': 1, 'y': 2, 'x': 3, 'w': 4, 'v': 5, 'u': 6}.map(k, k)", "m.exists_one(k, k == 'a')", "x / 0", "zz",
-             "has(m.a) ? m.a : 0", "f'{l}'", "l.map(x, x).filter(y, y > 1)", "coalesce(zz, m.b)", "[1, 2, 3].map(i, i + x)"]
+             "has(m.a) ? m.a : 0", "f'{l}'", "m.filter(k, seen[k] > 0)", "m.map(k, seen[k])", "m.all(k, seen[k] > 0)",
+             "m.exists(k, seen[k] > 0)", "m.exists_one(k, seen[k] > 0)", "m.filter(k, nosuch(k))", "m.map(k, 1 / (m[k] - m[k]))",
+             "m.map(k, zz)", "m.reduce(a, k, a + seen[k], 0)", "{'q': 1, 'r': 2, 's': 3, 't': 4}.filter(k, seen[k])",
+             "m.filter(k, k.size() > int(k))", "l.map(x, x).filter(y, y > 1)", "coalesce(zz, m.b)", "[1, 2, 3].map(i, i + x)"]
     bigmap = vmap([("k%02d" % i, vi(i)) for i in range(24)] + [("a", vi(1)), ("b", vi(2))])
-    binds = [("m", bigmap), ("l", vlist([vi(i) for i in range(8)])), ("x", vi(3))]
+    binds = [("m", bigmap), ("l", vlist([vi(i) for i in range(8)])), ("x", vi(3)), ("seen", vmap([("other", vi(1))]))]
     ccases = ["concurrent 16 6 %s %s" % (hx(p), binds_tokens(binds)) for p in progs]
     single = [evalsrc_case(p, binds=binds, ufuncs=[], std=False) for p in progs]
     cres = run_impl(ccases, isolate=True)
